@@ -440,11 +440,12 @@ def lazy_end(st, old, acc):
         st.ghost[("lazy_src", acc.id)] = rec
 
 
-def lazy_note(st, ref, items):
-    """called for every list that is iterated: remember it (and what an eager list iterated here itself depends on)"""
+def lazy_note(st, ref, items, own=True):
+    """called for every list that is iterated: remember it (and what an eager list iterated here itself depends on);
+    own=False for a one-shot iterator: consuming it empties it, so only the lists it was computed from are watched"""
     deps = st.ghost.get(("lazy_src", ref.id), ())
     if _REC in st.ghost:
-        st.ghost[_REC] = st.ghost[_REC] + ((ref.id, tuple(items)),) + deps
+        st.ghost[_REC] = st.ghost[_REC] + (((ref.id, tuple(items)),) if own else ()) + deps
     if deps:
         st.ghost["__last_lazy__"] = st.ghost.get("__last_lazy__", ()) + deps
 
